@@ -25,13 +25,16 @@ ASSUMPTIONS = ['deleting a column = removing it from the named range; a driver t
 
 
 def books(ctx):
+    X.requireds()       # the documented format, read before anything is stored or loaded
     tmp = tempfile.mkdtemp(prefix='c16_')
     out = [('shipped example', X.load_example())]
     try:
-        for i in range(ctx.n(3, 60)):
+        # the first stored workbooks have fixed pump trains: one curve-limited pump (own driver tab), two of them, a torque-limited pump between two of them
+        trains = [('curve',), ('curve', 'curve'), ('curve', 'torque', 'curve')]
+        for i in range(ctx.n(1, 60) + len(trains)):
             try:
-                pl, path, wb = X.stored_workbook(ctx.rng, tmp)
-                out.append((f'stored #{i}', wb))
+                pl, path, wb = X.stored_workbook(ctx.rng, tmp, modes=trains[i] if i < len(trains) else None)
+                out.append((f'stored #{i}' + (f' (pumps: {"+".join(trains[i])})' if i < len(trains) else ''), wb))
             except Exception:   # noqa
                 continue
     finally:
@@ -67,7 +70,11 @@ def books(ctx):
 def run(ctx, compare_model):
     lines, metas = [], []
     for label, wb in books(ctx):
-        cases = [('no fault', (lambda w: None), 'load')] + X.faults(wb)
+        fl_ = X.faults(wb)
+        if not ctx.thorough and ', ' in label and len(fl_) > 30:
+            # variants of a workbook (retitled tabs, tab order): every fault in the thorough tier, a sample of 30 in the quick tier (the base workbooks get all)
+            fl_ = ctx.rng.sample(fl_, 30)
+        cases = [('no fault', (lambda w: None), 'load')] + fl_
         for flabel, mut, expect in cases:
             w = X.clone_wb(wb)
             try:
